@@ -1,11 +1,1896 @@
-// In-crate verification harness (stub; see /verif/docs/SLICE_GUIDE.md).
+// In-crate verification harness for area `block` (properties C07 and C17).
+//
+// Hooked as `celestia::verif` of astria-conductor (feature `verif-blobs`, cfg(test)), so that
+// the private modules `celestia::{convert, fetch, verify, reconstruct}` and their `pub(super)`
+// items are reachable, and — through the crate's (dev-)dependencies — all of astria-core.
+//
+// What is run (always the REAL code):
+//   * `SequencerBlockBuilder::try_build` on generated block contents (`block reset …`);
+//   * `SequencerBlock / FilteredSequencerBlock / SubmittedMetadata / SubmittedRollupData
+//     ::try_from_raw` on the honest raw protobuf value and on every single-element tampering
+//     of it (`block full|filtered|meta|blob …`);
+//   * `SequencerBlock::to_filtered_block`, `split_for_celestia` (`block filter|split`);
+//   * the conductor pipeline `decode_raw_blobs → verify_metadata → reconstruct_blocks_from_
+//     verified_blobs` with brotli-compressed Celestia blobs and a mocked sequencer RPC that
+//     serves real signed commits (`block celestia …`);
+//   * every public decode entry point on structure-aware mutations of valid encodings under
+//     `catch_unwind` (`block wire …`, C17).
+//
+// Line protocol: see /verif/lean/Driver/BlockArea.lean (the two files are written together).
 #![allow(clippy::pedantic, clippy::all, dead_code, unused_imports)]
 
 #[path = "/verif/harness/common.rs"]
 mod common;
 
+use std::{
+    collections::HashMap,
+    sync::Arc,
+};
+
+use astria_core::{
+    generated::astria::{
+        primitive::v1 as rawp,
+        sequencerblock::v1 as raw,
+    },
+    primitive::v1::{
+        Address,
+        RollupId,
+        TransactionId,
+    },
+    sequencerblock::v1::{
+        block::{
+            self,
+            Deposit,
+            ExpandedBlockData,
+            FilteredSequencerBlock,
+            RollupData,
+            SequencerBlockBuilder,
+        },
+        DataItem,
+        SequencerBlock,
+        SubmittedMetadata,
+        SubmittedRollupData,
+    },
+    Protobuf as _,
+};
+use bytes::Bytes;
+use common::{
+    hex,
+    no_panic,
+    unhex,
+    Rng,
+    Trace,
+};
+use prost::Message as _;
+
+// ------------------------------------------------------------------------------------------
+// text codec of the raw protobuf values (single token each; `&` separates fields)
+// ------------------------------------------------------------------------------------------
+
+fn bl(items: &[Bytes]) -> String {
+    if items.is_empty() {
+        ".".to_string()
+    } else {
+        items.iter().map(|b| hex(b)).collect::<Vec<_>>().join(",")
+    }
+}
+
+fn bl_p(s: &str) -> Vec<Bytes> {
+    if s == "." {
+        vec![]
+    } else {
+        s.split(',').map(|x| Bytes::from(unhex(x))).collect()
+    }
+}
+
+fn proof_s(p: &Option<rawp::Proof>) -> String {
+    match p {
+        None => "~".to_string(),
+        Some(p) => format!("{}/{}/{}", hex(&p.audit_path), p.leaf_index, p.tree_size),
+    }
+}
+
+fn proof_p(s: &str) -> Option<rawp::Proof> {
+    if s == "~" {
+        return None;
+    }
+    let v: Vec<&str> = s.split('/').collect();
+    Some(rawp::Proof {
+        audit_path: unhex(v[0]).into(),
+        leaf_index: v[1].parse().unwrap(),
+        tree_size: v[2].parse().unwrap(),
+    })
+}
+
+fn hdr_s(h: &Option<raw::SequencerBlockHeader>) -> String {
+    match h {
+        None => "~".to_string(),
+        Some(h) => format!(
+            "{}:{}:{}:{}:{}:{}",
+            hex(h.chain_id.as_bytes()),
+            h.height,
+            match &h.time {
+                None => "~".to_string(),
+                Some(t) => format!("{}_{}", t.seconds, t.nanos),
+            },
+            hex(&h.rollup_transactions_root),
+            hex(&h.data_hash),
+            hex(&h.proposer_address)
+        ),
+    }
+}
+
+fn hdr_p(s: &str) -> Option<raw::SequencerBlockHeader> {
+    if s == "~" {
+        return None;
+    }
+    let v: Vec<&str> = s.split(':').collect();
+    Some(raw::SequencerBlockHeader {
+        chain_id: String::from_utf8_lossy(&unhex(v[0])).into_owned(),
+        height: v[1].parse().unwrap(),
+        time: if v[2] == "~" {
+            None
+        } else {
+            let (a, b) = v[2].split_once('_').unwrap();
+            Some(pbjson_types::Timestamp {
+                seconds: a.parse().unwrap(),
+                nanos: b.parse().unwrap(),
+            })
+        },
+        rollup_transactions_root: unhex(v[3]).into(),
+        data_hash: unhex(v[4]).into(),
+        proposer_address: unhex(v[5]).into(),
+    })
+}
+
+fn id_s(id: &Option<rawp::RollupId>) -> String {
+    match id {
+        None => "~".to_string(),
+        Some(id) => hex(&id.inner),
+    }
+}
+
+fn id_p(s: &str) -> Option<rawp::RollupId> {
+    if s == "~" {
+        None
+    } else {
+        Some(rawp::RollupId {
+            inner: unhex(s).into(),
+        })
+    }
+}
+
+fn rt_s(r: &raw::RollupTransactions) -> String {
+    format!("{};{};{}", id_s(&r.rollup_id), bl(&r.transactions), proof_s(&r.proof))
+}
+
+fn rt_p(s: &str) -> raw::RollupTransactions {
+    let v: Vec<&str> = s.split(';').collect();
+    raw::RollupTransactions {
+        rollup_id: id_p(v[0]),
+        transactions: bl_p(v[1]),
+        proof: proof_p(v[2]),
+    }
+}
+
+fn rts_s(rs: &[raw::RollupTransactions]) -> String {
+    if rs.is_empty() {
+        ".".to_string()
+    } else {
+        rs.iter().map(rt_s).collect::<Vec<_>>().join("|")
+    }
+}
+
+fn rts_p(s: &str) -> Vec<raw::RollupTransactions> {
+    if s == "." {
+        vec![]
+    } else {
+        s.split('|').map(rt_p).collect()
+    }
+}
+
+/// The oracle for the extended commit info bytes: what prost + `try_from_raw` say about them.
+fn eci_check(info: &[u8]) -> &'static str {
+    use astria_core::{
+        generated::protocol::price_feed::v1::ExtendedCommitInfoWithCurrencyPairMapping as RawEci,
+        protocol::price_feed::v1::ExtendedCommitInfoWithCurrencyPairMapping as Eci,
+    };
+    match RawEci::decode(info) {
+        Err(_) => "decode",
+        Ok(r) => match Eci::try_from_raw(r) {
+            Ok(_) => "ok",
+            Err(_) => "invalid",
+        },
+    }
+}
+
+fn eci_s(e: &Option<raw::ExtendedCommitInfoWithProof>) -> String {
+    match e {
+        None => "~".to_string(),
+        Some(e) => format!(
+            "{};{};{}",
+            hex(&e.extended_commit_info),
+            proof_s(&e.proof),
+            eci_check(&e.extended_commit_info)
+        ),
+    }
+}
+
+fn eci_p(s: &str) -> Option<raw::ExtendedCommitInfoWithProof> {
+    if s == "~" {
+        return None;
+    }
+    let v: Vec<&str> = s.split(';').collect();
+    Some(raw::ExtendedCommitInfoWithProof {
+        extended_commit_info: unhex(v[0]).into(),
+        proof: proof_p(v[1]),
+    })
+}
+
+fn fields(s: &str) -> HashMap<&str, &str> {
+    s.split('&').filter_map(|kv| kv.split_once('=')).collect()
+}
+
+fn block_s(b: &raw::SequencerBlock) -> String {
+    format!(
+        "bh={}&hd={}&rt={}&tp={}&ip={}&uch={}&eci={}",
+        hex(&b.block_hash),
+        hdr_s(&b.header),
+        rts_s(&b.rollup_transactions),
+        proof_s(&b.rollup_transactions_proof),
+        proof_s(&b.rollup_ids_proof),
+        bl(&b.upgrade_change_hashes),
+        eci_s(&b.extended_commit_info_with_proof)
+    )
+}
+
+fn block_p(s: &str) -> raw::SequencerBlock {
+    let f = fields(s);
+    raw::SequencerBlock {
+        block_hash: unhex(f["bh"]).into(),
+        header: hdr_p(f["hd"]),
+        rollup_transactions: rts_p(f["rt"]),
+        rollup_transactions_proof: proof_p(f["tp"]),
+        rollup_ids_proof: proof_p(f["ip"]),
+        upgrade_change_hashes: bl_p(f["uch"]),
+        extended_commit_info_with_proof: eci_p(f["eci"]),
+    }
+}
+
+fn ids_s(ids: &[rawp::RollupId]) -> String {
+    if ids.is_empty() {
+        ".".to_string()
+    } else {
+        ids.iter().map(|i| hex(&i.inner)).collect::<Vec<_>>().join(",")
+    }
+}
+
+fn ids_p(s: &str) -> Vec<rawp::RollupId> {
+    if s == "." {
+        vec![]
+    } else {
+        s.split(',')
+            .map(|x| rawp::RollupId {
+                inner: unhex(x).into(),
+            })
+            .collect()
+    }
+}
+
+fn filtered_s(b: &raw::FilteredSequencerBlock) -> String {
+    format!(
+        "bh={}&hd={}&rt={}&tp={}&all={}&ip={}&uch={}&eci={}",
+        hex(&b.block_hash),
+        hdr_s(&b.header),
+        rts_s(&b.rollup_transactions),
+        proof_s(&b.rollup_transactions_proof),
+        ids_s(&b.all_rollup_ids),
+        proof_s(&b.rollup_ids_proof),
+        bl(&b.upgrade_change_hashes),
+        eci_s(&b.extended_commit_info_with_proof)
+    )
+}
+
+fn filtered_p(s: &str) -> raw::FilteredSequencerBlock {
+    let f = fields(s);
+    raw::FilteredSequencerBlock {
+        block_hash: unhex(f["bh"]).into(),
+        header: hdr_p(f["hd"]),
+        rollup_transactions: rts_p(f["rt"]),
+        rollup_transactions_proof: proof_p(f["tp"]),
+        all_rollup_ids: ids_p(f["all"]),
+        rollup_ids_proof: proof_p(f["ip"]),
+        upgrade_change_hashes: bl_p(f["uch"]),
+        extended_commit_info_with_proof: eci_p(f["eci"]),
+    }
+}
+
+fn meta_s(b: &raw::SubmittedMetadata) -> String {
+    format!(
+        "bh={}&hd={}&ids={}&tp={}&ip={}&uch={}&eci={}",
+        hex(&b.block_hash),
+        hdr_s(&b.header),
+        ids_s(&b.rollup_ids),
+        proof_s(&b.rollup_transactions_proof),
+        proof_s(&b.rollup_ids_proof),
+        bl(&b.upgrade_change_hashes),
+        eci_s(&b.extended_commit_info_with_proof)
+    )
+}
+
+fn meta_p(s: &str) -> raw::SubmittedMetadata {
+    let f = fields(s);
+    raw::SubmittedMetadata {
+        block_hash: unhex(f["bh"]).into(),
+        header: hdr_p(f["hd"]),
+        rollup_ids: ids_p(f["ids"]),
+        rollup_transactions_proof: proof_p(f["tp"]),
+        rollup_ids_proof: proof_p(f["ip"]),
+        upgrade_change_hashes: bl_p(f["uch"]),
+        extended_commit_info_with_proof: eci_p(f["eci"]),
+    }
+}
+
+fn blob_s(b: &raw::SubmittedRollupData) -> String {
+    format!(
+        "bh={}&id={}&tx={}&pf={}",
+        hex(&b.sequencer_block_hash),
+        id_s(&b.rollup_id),
+        bl(&b.transactions),
+        proof_s(&b.proof)
+    )
+}
+
+fn blob_p(s: &str) -> raw::SubmittedRollupData {
+    let f = fields(s);
+    raw::SubmittedRollupData {
+        sequencer_block_hash: unhex(f["bh"]).into(),
+        rollup_id: id_p(f["id"]),
+        transactions: bl_p(f["tx"]),
+        proof: proof_p(f["pf"]),
+    }
+}
+
+// ------------------------------------------------------------------------------------------
+// error kinds
+// ------------------------------------------------------------------------------------------
+
+const WRAPPERS: &[&str] = &[
+    "Header",
+    "InvalidHeader",
+    "ParseRollupTransactions",
+    "ProofInvalid",
+    "TransactionProofInvalid",
+    "IdProofInvalid",
+    "ExtendedCommitInfo",
+    "RollupTransactionsProof",
+    "RollupIdsProof",
+    "Proof",
+];
+
+const TERMINALS: &[&str] = &[
+    "InvalidBlockHash",
+    "FieldNotSet",
+    "RollupTransactionsNotInSequencerBlock",
+    "InvalidRollupTransactionsRoot",
+    "InvalidRollupIdsProof",
+    "UpgradeChangeHashes",
+    "InvalidChainId",
+    "InvalidHeight",
+    "Time",
+    "IncorrectRollupTransactionsRootLength",
+    "ProposerAddress",
+    "RollupId",
+    "AuditPathNotMultipleOf32",
+    "AuditPathTooLong",
+    "LeafIndexOutsideTree",
+    "ZeroTreeSize",
+    "InvalidRollupId",
+    "RollupTransactionForIdNotInSequencerBlock",
+    "ProofNotSet",
+    "NotInSequencerBlock",
+    "Decode",
+    "InvalidExtendedCommitInfo",
+    "BlockHash",
+    "RollupIds",
+    "RollupTransactionsNotInCometBftBlock",
+    "RollupIdsNotInCometBftBlock",
+    "SequencerBlockHash",
+    "RollupIdsRootDoesNotMatchReconstructed",
+    "RollupTransactionsRootDoesNotMatchReconstructed",
+];
+
+/// Maps the `Debug` rendering of one of the (opaque) error types to `Outer/Inner/…`.
+fn err_kind(dbg: &str) -> String {
+    let mut out: Vec<String> = vec![];
+    let bytes = dbg.as_bytes();
+    let mut i = 0;
+    while i < bytes.len() {
+        if bytes[i].is_ascii_uppercase() && (i == 0 || !(bytes[i - 1].is_ascii_alphanumeric() || bytes[i - 1] == b'_')) {
+            let mut j = i;
+            while j < bytes.len() && (bytes[j].is_ascii_alphanumeric() || bytes[j] == b'_') {
+                j += 1;
+            }
+            let ident = &dbg[i..j];
+            if WRAPPERS.contains(&ident) {
+                out.push(ident.to_string());
+            } else if TERMINALS.contains(&ident) {
+                if ident == "FieldNotSet" {
+                    // the field name is the next quoted string
+                    let rest = &dbg[j..];
+                    let name = rest.split('"').nth(1).unwrap_or("?");
+                    out.push(format!("FieldNotSet:{name}"));
+                } else {
+                    out.push(ident.to_string());
+                }
+                break;
+            }
+            i = j;
+        } else {
+            i += 1;
+        }
+    }
+    if out.is_empty() {
+        "other".to_string()
+    } else {
+        out.join("/")
+    }
+}
+
+// ------------------------------------------------------------------------------------------
+// build spec
+// ------------------------------------------------------------------------------------------
+
+#[derive(Clone, Debug)]
+struct Spec {
+    bh: [u8; 32],
+    chain: String,
+    height: u32,
+    secs: i64,
+    nanos: u32,
+    proposer: [u8; 20],
+    subs: Vec<([u8; 32], Vec<u8>)>,
+    deps: Vec<([u8; 32], Vec<Vec<u8>>)>, // encoded RollupData::Deposit
+    r1: [u8; 32],
+    r2: [u8; 32],
+    uch: Vec<[u8; 32]>,
+    eci: Option<Vec<u8>>,
+    utx: Vec<Vec<u8>>,
+}
+
+fn arr32(v: &[u8]) -> [u8; 32] {
+    let mut a = [0u8; 32];
+    a.copy_from_slice(&v[..32]);
+    a
+}
+
+fn spec_s(s: &Spec) -> String {
+    let subs = if s.subs.is_empty() {
+        ".".to_string()
+    } else {
+        s.subs.iter().map(|(i, d)| format!("{}:{}", hex(i), hex(d))).collect::<Vec<_>>().join(",")
+    };
+    let deps = if s.deps.is_empty() {
+        ".".to_string()
+    } else {
+        s.deps
+            .iter()
+            .map(|(i, ds)| {
+                format!(
+                    "{}:{}",
+                    hex(i),
+                    if ds.is_empty() {
+                        ".".to_string()
+                    } else {
+                        ds.iter().map(|d| hex(d)).collect::<Vec<_>>().join("/")
+                    }
+                )
+            })
+            .collect::<Vec<_>>()
+            .join(",")
+    };
+    format!(
+        "bh={}&ch={}&h={}&t={}_{}&pr={}&subs={}&deps={}&r1={}&r2={}&uch={}&eci={}&utx={}",
+        hex(&s.bh),
+        hex(s.chain.as_bytes()),
+        s.height,
+        s.secs,
+        s.nanos,
+        hex(&s.proposer),
+        subs,
+        deps,
+        hex(&s.r1),
+        hex(&s.r2),
+        if s.uch.is_empty() { ".".to_string() } else { s.uch.iter().map(|h| hex(h)).collect::<Vec<_>>().join(",") },
+        match &s.eci {
+            None => "~".to_string(),
+            Some(e) => hex(e),
+        },
+        if s.utx.is_empty() { ".".to_string() } else { s.utx.iter().map(|h| hex(h)).collect::<Vec<_>>().join(",") },
+    )
+}
+
+fn spec_p(t: &str) -> Spec {
+    let f = fields(t);
+    let (secs, nanos) = f["t"].split_once('_').unwrap();
+    let mut proposer = [0u8; 20];
+    proposer.copy_from_slice(&unhex(f["pr"])[..20]);
+    Spec {
+        bh: arr32(&unhex(f["bh"])),
+        chain: String::from_utf8(unhex(f["ch"])).unwrap(),
+        height: f["h"].parse().unwrap(),
+        secs: secs.parse().unwrap(),
+        nanos: nanos.parse().unwrap(),
+        proposer,
+        subs: if f["subs"] == "." {
+            vec![]
+        } else {
+            f["subs"]
+                .split(',')
+                .map(|x| {
+                    let (a, b) = x.split_once(':').unwrap();
+                    (arr32(&unhex(a)), unhex(b))
+                })
+                .collect()
+        },
+        deps: if f["deps"] == "." {
+            vec![]
+        } else {
+            f["deps"]
+                .split(',')
+                .map(|x| {
+                    let (a, b) = x.split_once(':').unwrap();
+                    (arr32(&unhex(a)), if b == "." { vec![] } else { b.split('/').map(unhex).collect() })
+                })
+                .collect()
+        },
+        r1: arr32(&unhex(f["r1"])),
+        r2: arr32(&unhex(f["r2"])),
+        uch: if f["uch"] == "." { vec![] } else { f["uch"].split(',').map(|x| arr32(&unhex(x))).collect() },
+        eci: if f["eci"] == "~" { None } else { Some(unhex(f["eci"])) },
+        utx: if f["utx"] == "." { vec![] } else { f["utx"].split(',').map(unhex).collect() },
+    }
+}
+
+/// The commitments an honest proposer places into `block.data` — computed with astria-core's own
+/// grouping and tree functions (the same ones `generate_rollup_datas_commitment` uses).
+fn honest_roots(subs: &[([u8; 32], Vec<u8>)], deps: &[([u8; 32], Vec<Vec<u8>>)]) -> ([u8; 32], [u8; 32]) {
+    let subs_b: Vec<(RollupId, Bytes)> = subs.iter().map(|(i, d)| (RollupId::new(*i), Bytes::from(d.clone()))).collect();
+    let mut map = astria_core::protocol::group_rollup_data_submissions_by_rollup_id(subs_b.iter().map(|(i, d)| (i, d)));
+    for (id, ds) in deps {
+        map.entry(RollupId::new(*id)).or_default().extend(ds.iter().map(|d| Bytes::from(d.clone())));
+    }
+    map.sort_unstable_keys();
+    let ids_root = merkle::Tree::from_leaves(map.keys()).root();
+    let txs_root = astria_core::primitive::v1::derive_merkle_tree_from_rollup_txs(&map).root();
+    (txs_root, ids_root)
+}
+
+fn decode_deposit(enc: &[u8]) -> Deposit {
+    let raw = raw::RollupData::decode(enc).expect("spec deposits are valid RollupData");
+    match RollupData::try_from_raw(raw).expect("spec deposits are valid") {
+        RollupData::Deposit(d) => *d,
+        _ => panic!("spec deposit is not a deposit"),
+    }
+}
+
+fn build(s: &Spec) -> Result<SequencerBlock, String> {
+    let mut data: Vec<Bytes> = vec![
+        DataItem::RollupTransactionsRoot(s.r1).encode(),
+        DataItem::RollupIdsRoot(s.r2).encode(),
+    ];
+    if !s.uch.is_empty() {
+        let hashes = s.uch.iter().map(|h| astria_core::upgrades::v1::ChangeHash::new(*h)).collect();
+        data.push(DataItem::UpgradeChangeHashes(hashes).encode());
+    }
+    if let Some(e) = &s.eci {
+        data.push(DataItem::ExtendedCommitInfo(Bytes::from(e.clone())).encode());
+    }
+    data.extend(s.utx.iter().map(|t| Bytes::from(t.clone())));
+    let expanded = ExpandedBlockData::new_from_typed_data(&data, s.eci.is_some()).map_err(|e| err_kind(&format!("{e:?}")))?;
+    let mut deposits: HashMap<RollupId, Vec<Deposit>> = HashMap::new();
+    for (id, ds) in &s.deps {
+        deposits.insert(RollupId::new(*id), ds.iter().map(|d| decode_deposit(d)).collect());
+    }
+    SequencerBlockBuilder {
+        block_hash: block::Hash::new(s.bh),
+        chain_id: s.chain.clone().try_into().unwrap(),
+        height: s.height.into(),
+        time: tendermint::Time::from_unix_timestamp(s.secs, s.nanos).unwrap(),
+        proposer_address: tendermint::account::Id::new(s.proposer),
+        expanded_block_data: expanded,
+        rollup_data_bytes: s.subs.iter().map(|(i, d)| (RollupId::new(*i), Bytes::from(d.clone()))).collect(),
+        deposits,
+    }
+    .try_build()
+    .map_err(|e| err_kind(&format!("{e:?}")))
+}
+
+// ------------------------------------------------------------------------------------------
+// executing ops
+// ------------------------------------------------------------------------------------------
+
+fn res_full(r: &raw::SequencerBlock) -> String {
+    let input = r.clone();
+    match no_panic(move || SequencerBlock::try_from_raw(input)) {
+        None => "panic".to_string(),
+        Some(Err(e)) => format!("err:{}", err_kind(&format!("{e:?}"))),
+        Some(Ok(b)) => {
+            let back = b.into_raw();
+            if &back == r {
+                "ok same".to_string()
+            } else {
+                format!("ok {}", block_s(&back))
+            }
+        }
+    }
+}
+
+fn res_filtered(r: &raw::FilteredSequencerBlock) -> String {
+    let input = r.clone();
+    match no_panic(move || FilteredSequencerBlock::try_from_raw(input)) {
+        None => "panic".to_string(),
+        Some(Err(e)) => format!("err:{}", err_kind(&format!("{e:?}"))),
+        Some(Ok(b)) => {
+            let back = b.into_raw();
+            if &back == r {
+                "ok same".to_string()
+            } else {
+                format!("ok {}", filtered_s(&back))
+            }
+        }
+    }
+}
+
+fn res_meta(r: &raw::SubmittedMetadata) -> String {
+    let input = r.clone();
+    match no_panic(move || SubmittedMetadata::try_from_raw(input)) {
+        None => "panic".to_string(),
+        Some(Err(e)) => format!("err:{}", err_kind(&format!("{e:?}"))),
+        Some(Ok(b)) => {
+            let back = b.into_raw();
+            if &back == r {
+                "ok same".to_string()
+            } else {
+                format!("ok {}", meta_s(&back))
+            }
+        }
+    }
+}
+
+fn res_blob(r: &raw::SubmittedRollupData) -> String {
+    let input = r.clone();
+    match no_panic(move || SubmittedRollupData::try_from_raw(input)) {
+        None => "panic".to_string(),
+        Some(Err(e)) => format!("err:{}", err_kind(&format!("{e:?}"))),
+        Some(Ok(b)) => {
+            let back = b.into_raw();
+            if &back == r {
+                "ok same".to_string()
+            } else {
+                format!("ok {}", blob_s(&back))
+            }
+        }
+    }
+}
+
+// ------------------------------------------------------------------------------------------
+// the conductor pipeline with a mocked sequencer
+// ------------------------------------------------------------------------------------------
+
+mod pipeline {
+    use sequencer_client::{
+        tendermint,
+        tendermint_proto,
+        tendermint_rpc,
+    };
+
+    use super::*;
+    use crate::celestia::{
+        convert::decode_raw_blobs,
+        fetch::RawBlobs,
+        reconstruct::reconstruct_blocks_from_verified_blobs,
+        verify::{
+            verify_metadata,
+            BlobVerifier,
+        },
+    };
+
+    pub struct Env {
+        pub rt: tokio::runtime::Runtime,
+        pub server: wiremock::MockServer,
+        pub mounted: std::collections::HashSet<u64>,
+    }
+
+    fn signing_key() -> astria_core::crypto::SigningKey {
+        astria_core::crypto::SigningKey::from([0x33u8; 32])
+    }
+
+    fn validator() -> tendermint::validator::Info {
+        let pub_key = tendermint::PublicKey::from_raw_ed25519(signing_key().verification_key().as_ref()).unwrap();
+        tendermint::validator::Info {
+            address: tendermint::account::Id::from(pub_key),
+            pub_key,
+            power: 10u32.into(),
+            proposer_priority: 0.into(),
+            name: None,
+        }
+    }
+
+    fn signed_header(height: u32, chain: &str, block_hash: [u8; 32]) -> tendermint::block::signed_header::SignedHeader {
+        use prost::Message as _;
+        let timestamp = tendermint::Time::from_unix_timestamp(1, 1).unwrap();
+        let block_id = tendermint::block::Id {
+            hash: tendermint::Hash::Sha256(block_hash),
+            part_set_header: tendermint::block::parts::Header::default(),
+        };
+        let canonical_vote = tendermint::vote::CanonicalVote {
+            vote_type: tendermint::vote::Type::Precommit,
+            height: height.into(),
+            round: 0u16.into(),
+            block_id: Some(block_id),
+            timestamp: Some(timestamp),
+            chain_id: chain.try_into().unwrap(),
+        };
+        let message = tendermint_proto::types::CanonicalVote::from(canonical_vote).encode_length_delimited_to_vec();
+        let signature = signing_key().sign(&message);
+        let commit = tendermint::block::Commit {
+            height: height.into(),
+            round: 0u16.into(),
+            block_id,
+            signatures: vec![tendermint::block::CommitSig::BlockIdFlagCommit {
+                validator_address: validator().address,
+                timestamp,
+                signature: Some(signature.to_bytes().as_ref().try_into().unwrap()),
+            }],
+        };
+        tendermint::block::signed_header::SignedHeader::new(
+            tendermint::block::Header {
+                version: tendermint::block::header::Version {
+                    block: 1,
+                    app: 1,
+                },
+                chain_id: chain.try_into().unwrap(),
+                height: height.into(),
+                time: timestamp,
+                last_block_id: None,
+                last_commit_hash: None,
+                data_hash: None,
+                validators_hash: tendermint::Hash::Sha256([0; 32]),
+                next_validators_hash: tendermint::Hash::Sha256([0; 32]),
+                consensus_hash: tendermint::Hash::Sha256([0; 32]),
+                app_hash: tendermint::AppHash::default(),
+                last_results_hash: None,
+                evidence_hash: None,
+                proposer_address: validator().address,
+            },
+            commit,
+        )
+        .unwrap()
+    }
+
+    impl Env {
+        pub fn new() -> Self {
+            let rt = tokio::runtime::Builder::new_multi_thread().worker_threads(2).enable_all().build().unwrap();
+            let server = rt.block_on(wiremock::MockServer::start());
+            Env {
+                rt,
+                server,
+                mounted: Default::default(),
+            }
+        }
+
+        /// `Some((chain, hash))`: the sequencer has a commit for that height; `None`: it answers
+        /// with a JSON-RPC error (which the conductor does not retry).
+        pub fn mount(&mut self, height: u64, commit: Option<(&str, [u8; 32])>) {
+            use serde_json::json;
+            use wiremock::{
+                matchers::body_partial_json,
+                Mock,
+                ResponseTemplate,
+            };
+            assert!(self.mounted.insert(height), "height {height} mounted twice");
+            let h32 = u32::try_from(height).unwrap();
+            self.rt.block_on(async {
+                match commit {
+                    Some((chain, hash)) => {
+                        Mock::given(body_partial_json(json!({"method": "commit", "params": {"height": height.to_string()}})))
+                            .respond_with(ResponseTemplate::new(200).set_body_json(
+                                tendermint_rpc::response::Wrapper::new_with_id(
+                                    tendermint_rpc::Id::uuid_v4(),
+                                    Some(tendermint_rpc::endpoint::commit::Response {
+                                        signed_header: signed_header(h32, chain, hash),
+                                        canonical: true,
+                                    }),
+                                    None,
+                                ),
+                            ))
+                            .mount(&self.server)
+                            .await;
+                        Mock::given(body_partial_json(json!({"method": "validators", "params": {"height": height.to_string()}})))
+                            .respond_with(ResponseTemplate::new(200).set_body_json(
+                                tendermint_rpc::response::Wrapper::new_with_id(
+                                    tendermint_rpc::Id::uuid_v4(),
+                                    Some(tendermint_rpc::endpoint::validators::Response::new(h32.into(), vec![validator()], 1)),
+                                    None,
+                                ),
+                            ))
+                            .mount(&self.server)
+                            .await;
+                    }
+                    None => {
+                        for method in ["commit", "validators"] {
+                            Mock::given(body_partial_json(json!({"method": method, "params": {"height": height.to_string()}})))
+                                .respond_with(ResponseTemplate::new(200).set_body_json(json!({
+                                    "jsonrpc": "2.0",
+                                    "id": "00000000-0000-0000-0000-000000000000",
+                                    "error": {"code": -32603, "message": "Internal error", "data": "height must be less than or equal to the current blockchain height"}
+                                })))
+                                .mount(&self.server)
+                                .await;
+                        }
+                    }
+                }
+            });
+        }
+
+        /// Runs `decode_raw_blobs → verify_metadata → reconstruct_blocks_from_verified_blobs`.
+        /// Blobs: `None` = bytes that are not brotli, `(wrong_ns, entries)`.
+        pub fn run(
+            &self,
+            rollup_id: RollupId,
+            next_firm: u64,
+            metas: Vec<(bool, Option<Vec<raw::SubmittedMetadata>>)>,
+            blobs: Vec<(bool, Option<Vec<raw::SubmittedRollupData>>)>,
+        ) -> Option<Vec<crate::celestia::ReconstructedBlock>> {
+            use astria_core::brotli::compress_bytes;
+            use celestia_types::{
+                nmt::Namespace,
+                AppVersion,
+                Blob,
+            };
+            let seq_ns = astria_core::celestia::namespace_v0_from_sha256_of_bytes(b"verif-sequencer");
+            let rollup_ns = astria_core::celestia::namespace_v0_from_rollup_id(rollup_id);
+            let other_ns = astria_core::celestia::namespace_v0_from_sha256_of_bytes(b"someone-else");
+            let mk = |ns: Namespace, wrong: bool, payload: Option<Vec<u8>>| {
+                let data = match payload {
+                    Some(p) => compress_bytes(&p).unwrap(),
+                    None => vec![0xff, 0x00, 0x13, 0x37, 0xff, 0xff, 0xff, 0xff],
+                };
+                Blob::new(if wrong { other_ns } else { ns }, data, AppVersion::V3).unwrap()
+            };
+            let raw_blobs = RawBlobs {
+                celestia_height: 1,
+                header_blobs: metas
+                    .into_iter()
+                    .map(|(wrong, l)| {
+                        mk(seq_ns, wrong, l.map(|entries| raw::SubmittedMetadataList { entries }.encode_to_vec()))
+                    })
+                    .collect(),
+                rollup_blobs: blobs
+                    .into_iter()
+                    .map(|(wrong, l)| {
+                        mk(rollup_ns, wrong, l.map(|entries| raw::SubmittedRollupDataList { entries }.encode_to_vec()))
+                    })
+                    .collect(),
+            };
+            let mut params = crate::test_utils::make_execution_session_parameters();
+            params.sequencer_start_block_height = next_firm.saturating_sub(1);
+            let state = crate::test_utils::make_rollup_state("verif".to_string(), params, crate::test_utils::make_commitment_state());
+            let (_tx, rx) = crate::state::channel(state);
+            assert_eq!(rx.next_expected_firm_sequencer_height().value(), next_firm);
+            let _guard = self.rt.enter();
+            let client = sequencer_client::HttpClient::new(&*self.server.uri()).unwrap();
+            let verifier = Arc::new(BlobVerifier::try_new(client, 10_000).unwrap());
+            let decoded = no_panic(std::panic::AssertUnwindSafe(move || decode_raw_blobs(raw_blobs, rollup_ns, seq_ns)))?;
+            let verified = self.rt.block_on(verify_metadata(verifier, decoded, rx));
+            no_panic(std::panic::AssertUnwindSafe(move || reconstruct_blocks_from_verified_blobs(verified, rollup_id)))
+        }
+    }
+}
+
+fn rec_s(mut blocks: Vec<crate::celestia::ReconstructedBlock>) -> String {
+    if blocks.is_empty() {
+        return ".".to_string();
+    }
+    blocks.sort_by_key(|b| (b.header.height().value(), b.block_hash.get()));
+    blocks
+        .iter()
+        .map(|b| {
+            format!(
+                "{}:{}:{}",
+                hex(b.block_hash.as_bytes()),
+                hdr_s(&Some(b.header.clone().into_raw())).replace(':', "^"),
+                bl(&b.transactions)
+            )
+        })
+        .collect::<Vec<_>>()
+        .join("+")
+}
+
+/// `<blob>*<blob>…` where blob = `!` (garbage) | `[^]<entry>+<entry>…` | `[^]0` (empty list)
+fn blobs_tok<T>(blobs: &[(bool, Option<Vec<T>>)], f: impl Fn(&T) -> String) -> String {
+    if blobs.is_empty() {
+        return ".".to_string();
+    }
+    blobs
+        .iter()
+        .map(|(wrong, l)| {
+            let body = match l {
+                None => "!".to_string(),
+                Some(es) if es.is_empty() => "0".to_string(),
+                Some(es) => es.iter().map(&f).collect::<Vec<_>>().join("+"),
+            };
+            format!("{}{}", if *wrong { "^" } else { "" }, body)
+        })
+        .collect::<Vec<_>>()
+        .join("*")
+}
+
+fn blobs_parse<T>(s: &str, f: impl Fn(&str) -> T) -> Vec<(bool, Option<Vec<T>>)> {
+    if s == "." {
+        return vec![];
+    }
+    s.split('*')
+        .map(|b| {
+            let (wrong, body) = match b.strip_prefix('^') {
+                Some(r) => (true, r),
+                None => (false, b),
+            };
+            let l = if body == "!" {
+                None
+            } else if body == "0" {
+                Some(vec![])
+            } else {
+                Some(body.split('+').map(&f).collect())
+            };
+            (wrong, l)
+        })
+        .collect()
+}
+
+struct Session {
+    block: Option<SequencerBlock>,
+}
+
+struct Exec {
+    env: Option<pipeline::Env>,
+    session: Session,
+}
+
+impl Exec {
+    fn env(&mut self) -> &mut pipeline::Env {
+        if self.env.is_none() {
+            self.env = Some(pipeline::Env::new());
+        }
+        self.env.as_mut().unwrap()
+    }
+
+    /// Executes one op (the text before ` => `), returns the full line.
+    fn exec(&mut self, op: &str) -> String {
+        let t: Vec<&str> = op.split(' ').filter(|x| !x.is_empty()).collect();
+        assert_eq!(t[0], "block");
+        let res = match t[1] {
+            "reset" => {
+                let spec = spec_p(t[2]);
+                let s2 = spec.clone();
+                match no_panic(move || build(&s2)) {
+                    None => {
+                        self.session.block = None;
+                        "panic".to_string()
+                    }
+                    Some(Err(k)) => {
+                        self.session.block = None;
+                        format!("err:{k}")
+                    }
+                    Some(Ok(b)) => {
+                        let r = block_s(&b.clone().into_raw());
+                        self.session.block = Some(b);
+                        format!("ok {r}")
+                    }
+                }
+            }
+            "full" => res_full(&block_p(t[3])),
+            "filtered" => res_filtered(&filtered_p(t[3])),
+            "meta" => res_meta(&meta_p(t[3])),
+            "blob" => res_blob(&blob_p(t[3])),
+            "filter" => match &self.session.block {
+                None => "no-block".to_string(),
+                Some(b) => {
+                    let ids: Vec<RollupId> = ids_p(t[2]).iter().map(|i| RollupId::new(arr32(&i.inner))).collect();
+                    let a = filtered_s(&b.to_filtered_block(ids.clone()).into_raw());
+                    let c = filtered_s(&b.clone().into_filtered_block(ids).into_raw());
+                    if a == c {
+                        a
+                    } else {
+                        format!("to/into-differ {a} {c}")
+                    }
+                }
+            },
+            "split" => match &self.session.block {
+                None => "no-block".to_string(),
+                Some(b) => {
+                    let (m, rs) = b.clone().split_for_celestia();
+                    let mut s = meta_s(&m.into_raw());
+                    for r in rs {
+                        s.push_str(" # ");
+                        s.push_str(&blob_s(&r.into_raw()));
+                    }
+                    s
+                }
+            },
+            "celestia" => {
+                // block celestia <label> cfg=<rollup id>:<next firm> commits=<h:chainhex:hash|h:~,…> M=<…> R=<…>
+                let f: HashMap<&str, &str> = t[3..].iter().filter_map(|kv| kv.split_once('=')).collect();
+                let (rid, nf) = f["cfg"].split_once(':').unwrap();
+                let rollup_id = RollupId::new(arr32(&unhex(rid)));
+                let next_firm: u64 = nf.parse().unwrap();
+                let commits: Vec<(u64, Option<(String, [u8; 32])>)> = if f["commits"] == "." {
+                    vec![]
+                } else {
+                    f["commits"]
+                        .split(',')
+                        .map(|c| {
+                            let v: Vec<&str> = c.split(':').collect();
+                            let h: u64 = v[0].parse().unwrap();
+                            if v[1] == "~" {
+                                (h, None)
+                            } else {
+                                (h, Some((String::from_utf8(unhex(v[1])).unwrap(), arr32(&unhex(v[2])))))
+                            }
+                        })
+                        .collect()
+                };
+                let metas = blobs_parse(f["M"], meta_p);
+                let blobs = blobs_parse(f["R"], blob_p);
+                let env = self.env();
+                for (h, c) in &commits {
+                    if !env.mounted.contains(h) {
+                        env.mount(*h, c.as_ref().map(|(a, b)| (a.as_str(), *b)));
+                    }
+                }
+                match env.run(rollup_id, next_firm, metas, blobs) {
+                    None => "panic".to_string(),
+                    Some(blocks) => rec_s(blocks),
+                }
+            }
+            other => format!("bad-op:{other}"),
+        };
+        format!("{op} => {res}")
+    }
+}
+
+// ------------------------------------------------------------------------------------------
+// generation
+// ------------------------------------------------------------------------------------------
+
+fn flip(b: &Bytes, at: usize) -> Bytes {
+    let mut v = b.to_vec();
+    if v.is_empty() {
+        v.push(0x01);
+    } else {
+        let i = at % v.len();
+        v[i] ^= 0x01;
+    }
+    v.into()
+}
+
+fn mk_id(tag: u8, style: u8) -> [u8; 32] {
+    let mut id = [0u8; 32];
+    match style {
+        0 => id = [tag; 32],
+        1 => {
+            // differ only in the last byte
+            id = [0xab; 32];
+            id[31] = tag;
+        }
+        2 => {
+            // differ only in the first byte
+            id = [0x11; 32];
+            id[0] = tag;
+        }
+        _ => {
+            for (i, b) in id.iter_mut().enumerate() {
+                *b = tag.wrapping_mul(31).wrapping_add((i as u8).wrapping_mul(tag | 1));
+            }
+        }
+    }
+    id
+}
+
+fn mk_deposit(rng: &mut Rng, id: [u8; 32]) -> Vec<u8> {
+    let d = Deposit {
+        bridge_address: Address::builder().array([rng.next() as u8; 20]).prefix("astria").try_build().unwrap(),
+        rollup_id: RollupId::new(id),
+        amount: u128::from(rng.next()) * u128::from(rng.below(3)),
+        asset: "nria".parse().unwrap(),
+        destination_chain_address: {
+            let l = rng.below(6) as usize;
+            format!("0x{}", hex(&rng.bytes(l)))
+        },
+        source_transaction_id: TransactionId::new(arr32(&rng.bytes(32))),
+        source_action_index: rng.below(5),
+    };
+    RollupData::Deposit(Box::new(d)).into_raw().encode_to_vec()
+}
+
+fn valid_eci(rng: &mut Rng) -> Vec<u8> {
+    use astria_core::protocol::price_feed::v1::ExtendedCommitInfoWithCurrencyPairMapping;
+    let info = ExtendedCommitInfoWithCurrencyPairMapping {
+        extended_commit_info: tendermint::abci::types::ExtendedCommitInfo {
+            round: (rng.below(4) as u16).into(),
+            votes: vec![],
+        },
+        id_to_currency_pair: indexmap::IndexMap::new(),
+    };
+    info.into_raw().encode_to_vec()
+}
+
+fn payload(rng: &mut Rng) -> Vec<u8> {
+    let len = *rng.pick(&[0usize, 0, 1, 1, 2, 3, 5, 31, 32, 33, 64, 127, 128, 129, 200]);
+    match rng.below(4) {
+        0 => vec![0u8; len],
+        1 => vec![0xffu8; len],
+        _ => rng.bytes(len),
+    }
+}
+
+fn gen_spec(rng: &mut Rng, n: u64, height: u32) -> Spec {
+    let style = rng.below(4) as u8;
+    let nroll = if rng.chance(10) { 0 } else { rng.range(1, if common::is_thorough() { 8 } else { 5 }) };
+    let mut tags: Vec<u8> = vec![];
+    while (tags.len() as u64) < nroll {
+        let t = rng.range(1, 250) as u8;
+        if !tags.contains(&t) {
+            tags.push(t);
+        }
+    }
+    let ids: Vec<[u8; 32]> = tags.iter().map(|t| mk_id(*t, style)).collect();
+    let mut subs = vec![];
+    let mut deps: Vec<([u8; 32], Vec<Vec<u8>>)> = vec![];
+    if !ids.is_empty() {
+        // which rollups have sequenced data, which deposits, which both
+        let mut kinds: Vec<u8> = ids.iter().map(|_| rng.below(3) as u8).collect(); // 0 seq, 1 dep, 2 both
+        if !kinds.iter().any(|k| *k != 1) && rng.chance(50) {
+            kinds[0] = 0;
+        }
+        let nsub = rng.range(0, 9);
+        let seq_ids: Vec<[u8; 32]> = ids.iter().zip(&kinds).filter(|(_, k)| **k != 1).map(|(i, _)| *i).collect();
+        let mut last: Option<Vec<u8>> = None;
+        for _ in 0..nsub {
+            if seq_ids.is_empty() {
+                break;
+            }
+            let id = *rng.pick(&seq_ids);
+            let p = match (&last, rng.chance(25)) {
+                (Some(l), true) => l.clone(), // duplicate payload
+                _ => payload(rng),
+            };
+            last = Some(p.clone());
+            subs.push((id, p));
+        }
+        // every "seq"/"both" rollup gets at least one submission
+        for (id, k) in ids.iter().zip(&kinds) {
+            if *k != 1 && !subs.iter().any(|(i, _)| i == id) {
+                let at = rng.below(subs.len() as u64 + 1) as usize;
+                subs.insert(at, (*id, payload(rng)));
+            }
+        }
+        for (id, k) in ids.iter().zip(&kinds) {
+            if *k != 0 {
+                let nd = if rng.chance(4) { 0 } else { rng.range(1, 3) };
+                let mut ds: Vec<Vec<u8>> = (0..nd).map(|_| mk_deposit(rng, *id)).collect();
+                if nd >= 2 && rng.chance(20) {
+                    ds[1] = ds[0].clone(); // duplicate deposit
+                }
+                deps.push((*id, ds));
+            }
+        }
+        // the map's iteration order is arbitrary
+        if rng.chance(50) {
+            deps.reverse();
+        }
+    }
+    let (r1, r2) = honest_roots(&subs, &deps);
+    let mut bh = [0u8; 32];
+    bh[..8].copy_from_slice(&n.to_be_bytes());
+    bh[31] = 0x77;
+    Spec {
+        bh,
+        chain: "verif-chain".to_string(),
+        height,
+        secs: 1_700_000_000 + n as i64,
+        nanos: (n as u32 * 7) % 1_000_000_000,
+        proposer: [0x42; 20],
+        subs,
+        deps,
+        r1,
+        r2,
+        uch: if rng.chance(15) { vec![arr32(&rng.bytes(32))] } else { vec![] },
+        eci: if rng.chance(40) { Some(valid_eci(rng)) } else { None },
+        utx: (0..rng.below(4)).map(|_| {
+            let l = rng.range(40, 90) as usize;
+            let mut v = rng.bytes(l);
+            v[0] = 0xff;
+            v
+        }).collect(),
+    }
+}
+
+fn mut_proof(p: &Option<rawp::Proof>, how: u8) -> Option<rawp::Proof> {
+    let mut q = p.clone()?;
+    match how {
+        0 => q.audit_path = flip(&q.audit_path, 7), // also turns an empty path into 1 byte
+        1 => q.leaf_index += 1,
+        2 => q.tree_size += 2,
+        3 => {
+            let mut v = q.audit_path.to_vec();
+            v.extend_from_slice(&[0x5a; 32]);
+            q.audit_path = v.into();
+        }
+        4 => {
+            let v = q.audit_path.to_vec();
+            q.audit_path = v[..v.len().saturating_sub(32)].to_vec().into();
+        }
+        5 => q.tree_size = 0,
+        6 => q.leaf_index = u64::MAX,
+        7 => q.tree_size += 1,
+        8 => {
+            let mut v = q.audit_path.to_vec();
+            v.push(0);
+            q.audit_path = v.into();
+        }
+        _ => return None,
+    }
+    Some(q)
+}
+
+const PROOF_MUTS: &[(u8, &str)] = &[
+    (0, "flip"),
+    (1, "index"),
+    (2, "size"),
+    (3, "extend"),
+    (4, "truncate"),
+    (5, "zero-size"),
+    (6, "max-index"),
+    (7, "even-size"),
+    (8, "plus-byte"),
+    (9, "unset"),
+];
+
+fn mut_header(h: &Option<raw::SequencerBlockHeader>) -> Vec<(String, Option<raw::SequencerBlockHeader>)> {
+    let mut out = vec![("hd-unset".to_string(), None)];
+    let Some(h) = h else { return out };
+    let mut e = |name: &str, f: &dyn Fn(&mut raw::SequencerBlockHeader)| {
+        let mut x = h.clone();
+        f(&mut x);
+        out.push((name.to_string(), Some(x)));
+    };
+    e("hd-root-flip", &|x| x.rollup_transactions_root = flip(&x.rollup_transactions_root, 3));
+    e("hd-root-31", &|x| x.rollup_transactions_root = x.rollup_transactions_root.slice(..31));
+    e("hd-datahash-flip", &|x| x.data_hash = flip(&x.data_hash, 9));
+    e("hd-datahash-33", &|x| {
+        let mut v = x.data_hash.to_vec();
+        v.push(1);
+        x.data_hash = v.into();
+    });
+    e("hd-chain-empty", &|x| x.chain_id = String::new());
+    e("hd-chain-50", &|x| x.chain_id = "a".repeat(50));
+    e("hd-chain-51", &|x| x.chain_id = "a".repeat(51));
+    e("hd-chain-char", &|x| x.chain_id = "bad chain".to_string());
+    e("hd-chain-other", &|x| x.chain_id = "Other_chain-1.0".to_string());
+    e("hd-height-max", &|x| x.height = i64::MAX as u64);
+    e("hd-height-over", &|x| x.height = i64::MAX as u64 + 1);
+    e("hd-height-0", &|x| x.height = 0);
+    e("hd-time-unset", &|x| x.time = None);
+    e("hd-nanos-neg", &|x| x.time.as_mut().unwrap().nanos = -1);
+    e("hd-nanos-max", &|x| x.time.as_mut().unwrap().nanos = 999_999_999);
+    e("hd-nanos-over", &|x| x.time.as_mut().unwrap().nanos = 1_000_000_000);
+    e("hd-secs-min", &|x| x.time.as_mut().unwrap().seconds = -62_135_596_800);
+    e("hd-secs-under", &|x| x.time.as_mut().unwrap().seconds = -62_135_596_801);
+    e("hd-secs-max", &|x| x.time.as_mut().unwrap().seconds = 253_402_300_799);
+    e("hd-secs-over", &|x| x.time.as_mut().unwrap().seconds = 253_402_300_800);
+    e("hd-secs-i64min", &|x| x.time.as_mut().unwrap().seconds = i64::MIN);
+    e("hd-secs-i64max", &|x| x.time.as_mut().unwrap().seconds = i64::MAX);
+    e("hd-proposer-19", &|x| x.proposer_address = x.proposer_address.slice(..19));
+    out
+}
+
+fn fresh_id() -> rawp::RollupId {
+    rawp::RollupId {
+        inner: Bytes::from(vec![0xee; 32]),
+    }
+}
+
+/// Every single-element tampering of the per-rollup entries.
+fn mut_rts(rts: &[raw::RollupTransactions], rng: &mut Rng) -> Vec<(String, Vec<raw::RollupTransactions>)> {
+    let mut out = vec![];
+    for r in 0..rts.len() {
+        let e = &rts[r];
+        let mut push = |name: String, x: raw::RollupTransactions| {
+            let mut v = rts.to_vec();
+            v[r] = x;
+            out.push((name, v));
+        };
+        for i in 0..e.transactions.len() {
+            let mut x = e.clone();
+            x.transactions[i] = flip(&x.transactions[i], rng.below(64) as usize);
+            push(format!("tx-alter:{r}:{i}"), x);
+        }
+        if e.transactions.len() >= 2 {
+            let mut x = e.clone();
+            let n = x.transactions.len();
+            x.transactions.swap(0, n - 1);
+            push(format!("tx-reorder:{r}"), x);
+            let mut x = e.clone();
+            x.transactions.remove(0);
+            push(format!("tx-drop-first:{r}"), x);
+        }
+        if !e.transactions.is_empty() {
+            let mut x = e.clone();
+            x.transactions.pop();
+            push(format!("tx-truncate:{r}"), x);
+            let mut x = e.clone();
+            let last = x.transactions.last().unwrap().clone();
+            x.transactions.push(last);
+            push(format!("tx-extend-dup:{r}"), x);
+        }
+        let mut x = e.clone();
+        x.transactions.push(Bytes::from(vec![0x0a, 0x01, 0x99]));
+        push(format!("tx-extend-new:{r}"), x);
+        let mut x = e.clone();
+        x.transactions.insert(0, Bytes::new());
+        push(format!("tx-prepend-empty:{r}"), x);
+        for (how, name) in PROOF_MUTS {
+            let mut x = e.clone();
+            x.proof = mut_proof(&e.proof, *how);
+            push(format!("rtproof-{name}:{r}"), x);
+        }
+        let mut x = e.clone();
+        x.rollup_id = Some(fresh_id());
+        push(format!("id-reattr-fresh:{r}"), x);
+        let mut x = e.clone();
+        x.rollup_id = None;
+        push(format!("id-unset:{r}"), x);
+        let mut x = e.clone();
+        x.rollup_id = Some(rawp::RollupId {
+            inner: e.rollup_id.as_ref().unwrap().inner.slice(..31),
+        });
+        push(format!("id-31:{r}"), x);
+        let mut x = e.clone();
+        x.rollup_id = Some(rawp::RollupId {
+            inner: flip(&e.rollup_id.as_ref().unwrap().inner, 31),
+        });
+        push(format!("id-flip:{r}"), x);
+        if rts.len() >= 2 {
+            let o = (r + 1) % rts.len();
+            let mut x = e.clone();
+            x.rollup_id = rts[o].rollup_id.clone();
+            push(format!("id-reattr-other:{r}"), x);
+            let mut x = e.clone();
+            x.proof = rts[o].proof.clone();
+            push(format!("rtproof-other:{r}"), x);
+        }
+        // list-level edits
+        let mut v = rts.to_vec();
+        v.remove(r);
+        out.push((format!("rt-remove:{r}"), v));
+        let mut v = rts.to_vec();
+        v.insert(r, rts[r].clone());
+        out.push((format!("rt-dup:{r}"), v));
+        if r + 1 < rts.len() {
+            let mut v = rts.to_vec();
+            v.swap(r, r + 1);
+            out.push((format!("rt-reorder:{r}"), v));
+            // exchange the ids of two entries (data re-attributed both ways)
+            let mut v = rts.to_vec();
+            let a = v[r].rollup_id.clone();
+            v[r].rollup_id = v[r + 1].rollup_id.clone();
+            v[r + 1].rollup_id = a;
+            out.push((format!("id-exchange:{r}"), v));
+        }
+    }
+    let mut v = rts.to_vec();
+    v.push(raw::RollupTransactions {
+        rollup_id: Some(fresh_id()),
+        transactions: vec![Bytes::from(vec![0x0a, 0x00])],
+        proof: rts.first().and_then(|r| r.proof.clone()).or(Some(rawp::Proof {
+            audit_path: Bytes::new(),
+            leaf_index: 0,
+            tree_size: 1,
+        })),
+    });
+    out.push(("rt-add".to_string(), v));
+    out
+}
+
+fn mut_common_proofs(
+    tp: &Option<rawp::Proof>,
+    ip: &Option<rawp::Proof>,
+) -> Vec<(String, Option<rawp::Proof>, Option<rawp::Proof>)> {
+    let mut out = vec![];
+    for (how, name) in PROOF_MUTS {
+        out.push((format!("txsproof-{name}"), mut_proof(tp, *how), ip.clone()));
+        out.push((format!("idsproof-{name}"), tp.clone(), mut_proof(ip, *how)));
+    }
+    out.push(("proofs-swapped".to_string(), ip.clone(), tp.clone()));
+    out
+}
+
+fn mut_ids(ids: &[rawp::RollupId]) -> Vec<(String, Vec<rawp::RollupId>)> {
+    let mut out = vec![];
+    for r in 0..ids.len() {
+        let mut v = ids.to_vec();
+        v.remove(r);
+        out.push((format!("ids-remove:{r}"), v));
+        let mut v = ids.to_vec();
+        v[r] = rawp::RollupId {
+            inner: flip(&v[r].inner, 0),
+        };
+        out.push((format!("ids-flip:{r}"), v));
+        let mut v = ids.to_vec();
+        v[r] = rawp::RollupId {
+            inner: v[r].inner.slice(..31),
+        };
+        out.push((format!("ids-31:{r}"), v));
+        if r + 1 < ids.len() {
+            let mut v = ids.to_vec();
+            v.swap(r, r + 1);
+            out.push((format!("ids-reorder:{r}"), v));
+        }
+        let mut v = ids.to_vec();
+        v.insert(r, ids[r].clone());
+        out.push((format!("ids-dup:{r}"), v));
+    }
+    let mut v = ids.to_vec();
+    v.push(fresh_id());
+    out.push(("ids-add".to_string(), v));
+    out
+}
+
+fn mut_misc(
+    uch: &[Bytes],
+    eci: &Option<raw::ExtendedCommitInfoWithProof>,
+    tp: &Option<rawp::Proof>,
+) -> Vec<(String, Vec<Bytes>, Option<raw::ExtendedCommitInfoWithProof>)> {
+    let mut out = vec![];
+    let mut v = uch.to_vec();
+    v.push(Bytes::from(vec![7u8; 31]));
+    out.push(("uch-add-31".to_string(), v, eci.clone()));
+    let mut v = uch.to_vec();
+    v.push(Bytes::from(vec![7u8; 32]));
+    out.push(("uch-add-32".to_string(), v, eci.clone()));
+    match eci {
+        Some(e) => {
+            out.push(("eci-remove".to_string(), uch.to_vec(), None));
+            let mut x = e.clone();
+            x.extended_commit_info = flip(&x.extended_commit_info, 1);
+            out.push(("eci-info-flip".to_string(), uch.to_vec(), Some(x)));
+            for (how, name) in PROOF_MUTS {
+                let mut x = e.clone();
+                x.proof = mut_proof(&e.proof, *how);
+                out.push((format!("eci-proof-{name}"), uch.to_vec(), Some(x)));
+            }
+        }
+        None => {
+            out.push((
+                "eci-add".to_string(),
+                uch.to_vec(),
+                Some(raw::ExtendedCommitInfoWithProof {
+                    extended_commit_info: Bytes::new(),
+                    proof: tp.clone(),
+                }),
+            ));
+        }
+    }
+    out
+}
+
+fn subsets_upto4(pool: &[rawp::RollupId]) -> Vec<Vec<rawp::RollupId>> {
+    let n = pool.len();
+    let mut out = vec![];
+    for mask in 0u32..(1 << n) {
+        if mask.count_ones() <= 4 {
+            out.push((0..n).filter(|i| mask & (1 << i) != 0).map(|i| pool[i].clone()).collect());
+        }
+    }
+    out
+}
+
+fn generate(rng: &mut Rng, ex: &mut Exec, trace: &mut Trace) {
+    let sessions = if common::is_thorough() { 400 } else { 36 };
+    for n in 0..sessions {
+        // heights are unique per session so that the conductor's per-height cache never serves
+        // another session's commit
+        let height = 10 + 4 * n as u32;
+        let mut spec = gen_spec(rng, n, height);
+        // dishonest / mistaken commitments in block.data
+        let mode = rng.below(12);
+        if mode == 0 {
+            spec.r1 = arr32(&flip(&Bytes::copy_from_slice(&spec.r1), 5));
+        } else if mode == 1 {
+            spec.r2 = arr32(&flip(&Bytes::copy_from_slice(&spec.r2), 5));
+        } else if mode == 2 {
+            std::mem::swap(&mut spec.r1, &mut spec.r2);
+        }
+        trace.line(&ex.exec(&format!("block reset {}", spec_s(&spec))));
+        let Some(block) = ex.session.block.clone() else { continue };
+        let honest = block.clone().into_raw();
+        let light = n % 3 != 0 && !common::is_thorough(); // full tamper sweep on every third session in the quick tier
+
+        // ---- full block through raw protobuf ----
+        trace.line(&ex.exec(&format!("block full honest {}", block_s(&honest))));
+        let mut cases: Vec<(String, raw::SequencerBlock)> = vec![];
+        for (name, rts) in mut_rts(&honest.rollup_transactions, rng) {
+            let mut x = honest.clone();
+            x.rollup_transactions = rts;
+            cases.push((name, x));
+        }
+        for (name, h) in mut_header(&honest.header) {
+            let mut x = honest.clone();
+            x.header = h;
+            cases.push((name, x));
+        }
+        for (name, tp, ip) in mut_common_proofs(&honest.rollup_transactions_proof, &honest.rollup_ids_proof) {
+            let mut x = honest.clone();
+            x.rollup_transactions_proof = tp;
+            x.rollup_ids_proof = ip;
+            cases.push((name, x));
+        }
+        for (name, uch, eci) in mut_misc(&honest.upgrade_change_hashes, &honest.extended_commit_info_with_proof, &honest.rollup_transactions_proof) {
+            let mut x = honest.clone();
+            x.upgrade_change_hashes = uch;
+            x.extended_commit_info_with_proof = eci;
+            cases.push((name, x));
+        }
+        let mut x = honest.clone();
+        x.block_hash = flip(&x.block_hash, 0);
+        cases.push(("bh-flip".to_string(), x));
+        let mut x = honest.clone();
+        x.block_hash = x.block_hash.slice(..31);
+        cases.push(("bh-31".to_string(), x));
+        for (i, (name, x)) in cases.iter().enumerate() {
+            if light && i % 4 != (n as usize) % 4 {
+                continue;
+            }
+            trace.line(&ex.exec(&format!("block full {name} {}", block_s(x))));
+        }
+
+        // ---- filtered blocks: every subset of at most 4 ids out of (present ∪ one absent) ----
+        let mut pool: Vec<rawp::RollupId> = honest.rollup_transactions.iter().take(5).map(|r| r.rollup_id.clone().unwrap()).collect();
+        pool.push(fresh_id());
+        let subsets = subsets_upto4(&pool);
+        for (k, sub) in subsets.iter().enumerate() {
+            let mut req = sub.clone();
+            if k % 3 == 1 {
+                req.reverse();
+            }
+            if k % 7 == 3 && !req.is_empty() {
+                req.push(req[0].clone()); // requested twice
+            }
+            let line = ex.exec(&format!("block filter {}", ids_s(&req)));
+            let dump = line.split(" => ").nth(1).unwrap().to_string();
+            trace.line(&line);
+            let f = filtered_p(&dump);
+            trace.line(&ex.exec(&format!("block filtered honest {}", filtered_s(&f))));
+            // tamper sweep on a few of the subsets
+            if k % 5 == (n as usize) % 5 || (sub.len() == pool.len().min(4) && k % 2 == 0) {
+                let mut fc: Vec<(String, raw::FilteredSequencerBlock)> = vec![];
+                for (name, rts) in mut_rts(&f.rollup_transactions, rng) {
+                    let mut x = f.clone();
+                    x.rollup_transactions = rts;
+                    fc.push((name, x));
+                }
+                for (name, ids) in mut_ids(&f.all_rollup_ids) {
+                    let mut x = f.clone();
+                    x.all_rollup_ids = ids;
+                    fc.push((name, x));
+                }
+                for (name, tp, ip) in mut_common_proofs(&f.rollup_transactions_proof, &f.rollup_ids_proof) {
+                    let mut x = f.clone();
+                    x.rollup_transactions_proof = tp;
+                    x.rollup_ids_proof = ip;
+                    fc.push((name, x));
+                }
+                for (name, h) in mut_header(&f.header) {
+                    let mut x = f.clone();
+                    x.header = h;
+                    fc.push((name, x));
+                }
+                for (name, uch, eci) in mut_misc(&f.upgrade_change_hashes, &f.extended_commit_info_with_proof, &f.rollup_transactions_proof) {
+                    let mut x = f.clone();
+                    x.upgrade_change_hashes = uch;
+                    x.extended_commit_info_with_proof = eci;
+                    fc.push((name, x));
+                }
+                let mut x = f.clone();
+                x.block_hash = x.block_hash.slice(..31);
+                fc.push(("bh-31".to_string(), x));
+                for (i, (name, x)) in fc.iter().enumerate() {
+                    if light && i % 6 != k % 6 {
+                        continue;
+                    }
+                    trace.line(&ex.exec(&format!("block filtered {name} {}", filtered_s(x))));
+                }
+            }
+        }
+
+        // ---- celestia form ----
+        let line = ex.exec("block split");
+        let dump = line.split(" => ").nth(1).unwrap().to_string();
+        trace.line(&line);
+        let mut parts = dump.split(" # ");
+        let meta = meta_p(parts.next().unwrap());
+        let blobs: Vec<raw::SubmittedRollupData> = parts.map(blob_p).collect();
+        trace.line(&ex.exec(&format!("block meta honest {}", meta_s(&meta))));
+        let mut mc: Vec<(String, raw::SubmittedMetadata)> = vec![];
+        for (name, ids) in mut_ids(&meta.rollup_ids) {
+            let mut x = meta.clone();
+            x.rollup_ids = ids;
+            mc.push((name, x));
+        }
+        for (name, tp, ip) in mut_common_proofs(&meta.rollup_transactions_proof, &meta.rollup_ids_proof) {
+            let mut x = meta.clone();
+            x.rollup_transactions_proof = tp;
+            x.rollup_ids_proof = ip;
+            mc.push((name, x));
+        }
+        for (name, h) in mut_header(&meta.header) {
+            let mut x = meta.clone();
+            x.header = h;
+            mc.push((name, x));
+        }
+        for (name, uch, eci) in mut_misc(&meta.upgrade_change_hashes, &meta.extended_commit_info_with_proof, &meta.rollup_transactions_proof) {
+            let mut x = meta.clone();
+            x.upgrade_change_hashes = uch;
+            x.extended_commit_info_with_proof = eci;
+            mc.push((name, x));
+        }
+        let mut x = meta.clone();
+        x.block_hash = x.block_hash.slice(..31);
+        mc.push(("bh-31".to_string(), x));
+        let mut x = meta.clone();
+        x.block_hash = flip(&x.block_hash, 2);
+        mc.push(("bh-flip".to_string(), x));
+        for (i, (name, x)) in mc.iter().enumerate() {
+            if light && i % 4 != (n as usize) % 4 {
+                continue;
+            }
+            trace.line(&ex.exec(&format!("block meta {name} {}", meta_s(x))));
+        }
+        for b in &blobs {
+            trace.line(&ex.exec(&format!("block blob honest {}", blob_s(b))));
+        }
+        if let Some(b) = blobs.first() {
+            let mut bc: Vec<(String, raw::SubmittedRollupData)> = vec![];
+            for (how, name) in PROOF_MUTS {
+                let mut x = b.clone();
+                x.proof = mut_proof(&b.proof, *how);
+                bc.push((format!("proof-{name}"), x));
+            }
+            let mut x = b.clone();
+            x.rollup_id = None;
+            bc.push(("id-unset".to_string(), x));
+            let mut x = b.clone();
+            x.rollup_id = Some(rawp::RollupId {
+                inner: b.rollup_id.as_ref().unwrap().inner.slice(..31),
+            });
+            bc.push(("id-31".to_string(), x));
+            let mut x = b.clone();
+            x.sequencer_block_hash = x.sequencer_block_hash.slice(..31);
+            bc.push(("bh-31".to_string(), x));
+            // several defects at once: which error comes first
+            let mut x = b.clone();
+            x.rollup_id = None;
+            x.sequencer_block_hash = Bytes::new();
+            x.proof = None;
+            bc.push(("all-bad".to_string(), x));
+            let mut x = b.clone();
+            x.sequencer_block_hash = Bytes::new();
+            x.proof = None;
+            bc.push(("bh-and-proof-bad".to_string(), x));
+            for (name, x) in &bc {
+                trace.line(&ex.exec(&format!("block blob {name} {}", blob_s(x))));
+            }
+        }
+
+        // ---- the conductor ----
+        gen_celestia(rng, ex, trace, &spec, &meta, &blobs, n);
+    }
+}
+
+fn cel_line(
+    label: &str,
+    rid: &[u8],
+    next_firm: u64,
+    commits: &[(u64, Option<(String, Vec<u8>)>)],
+    metas: &[(bool, Option<Vec<raw::SubmittedMetadata>>)],
+    blobs: &[(bool, Option<Vec<raw::SubmittedRollupData>>)],
+) -> String {
+    let commits_s = if commits.is_empty() {
+        ".".to_string()
+    } else {
+        commits
+            .iter()
+            .map(|(h, c)| match c {
+                None => format!("{h}:~"),
+                Some((chain, hash)) => format!("{h}:{}:{}", hex(chain.as_bytes()), hex(hash)),
+            })
+            .collect::<Vec<_>>()
+            .join(",")
+    };
+    format!(
+        "block celestia {label} cfg={}:{next_firm} commits={commits_s} M={} R={}",
+        hex(rid),
+        blobs_tok(metas, meta_s),
+        blobs_tok(blobs, blob_s)
+    )
+}
+
+fn gen_celestia(
+    rng: &mut Rng,
+    ex: &mut Exec,
+    trace: &mut Trace,
+    spec: &Spec,
+    meta: &raw::SubmittedMetadata,
+    blobs: &[raw::SubmittedRollupData],
+    n: u64,
+) {
+    let h = u64::from(spec.height);
+    let chain = spec.chain.clone();
+    // the sequencer's view: height h has this block hash; h+1 has another block; h+2 unknown
+    let commits = vec![
+        (h, Some((chain.clone(), spec.bh.to_vec()))),
+        (h + 1, Some((chain.clone(), vec![0x99; 32]))),
+        (h + 2, None),
+    ];
+    let ids: Vec<Vec<u8>> = blobs.iter().map(|b| b.rollup_id.as_ref().unwrap().inner.to_vec()).collect();
+    let absent = vec![0xee; 32];
+    let m1 = |m: &raw::SubmittedMetadata| vec![(false, Some(vec![m.clone()]))];
+    let r1 = |bs: Vec<raw::SubmittedRollupData>| vec![(false, Some(bs))];
+    let mut emit = |label: &str, rid: &[u8], nf: u64, metas: Vec<(bool, Option<Vec<raw::SubmittedMetadata>>)>, rb: Vec<(bool, Option<Vec<raw::SubmittedRollupData>>)>| {
+        trace.line(&ex.exec(&cel_line(label, rid, nf, &commits, &metas, &rb)));
+    };
+
+    // conductor of a rollup that is not in the block: empty block expected
+    emit("absent-honest", &absent, h, m1(meta), r1(vec![]));
+    // … to which somebody posts another rollup's (valid) blob
+    if let Some(b) = blobs.first() {
+        emit("absent-foreign-blob", &absent, h, m1(meta), r1(vec![b.clone()]));
+    }
+    for (k, id) in ids.iter().enumerate() {
+        if k >= 2 && !common::is_thorough() {
+            break;
+        }
+        let own = blobs[k].clone();
+        emit("honest", id, h, m1(meta), r1(vec![own.clone()]));
+        emit("honest-all-blobs-own-first", id, h, m1(meta), r1({
+            let mut v = vec![own.clone()];
+            v.extend(blobs.iter().enumerate().filter(|(j, _)| *j != k).map(|(_, b)| b.clone()));
+            v
+        }));
+        emit("blob-missing", id, h, m1(meta), r1(vec![]));
+        emit("below-firm-height", id, h + 1, m1(meta), r1(vec![own.clone()]));
+        emit("firm-height-lower", id, h.saturating_sub(3).max(1), m1(meta), r1(vec![own.clone()]));
+        // foreign blobs (valid for the block, but of another rollup)
+        if blobs.len() >= 2 {
+            let other = blobs[(k + 1) % blobs.len()].clone();
+            emit("foreign-blob-only", id, h, m1(meta), r1(vec![other.clone()]));
+            emit("foreign-blob-first", id, h, m1(meta), r1(vec![other.clone(), own.clone()]));
+            emit("foreign-blob-second", id, h, m1(meta), r1(vec![own.clone(), other.clone()]));
+            // re-attribution: the other rollup's data and proof under this rollup's id
+            let mut x = other.clone();
+            x.rollup_id = own.rollup_id.clone();
+            emit("blob-id-reattributed", id, h, m1(meta), r1(vec![x]));
+            let mut x = own.clone();
+            x.proof = other.proof.clone();
+            emit("blob-proof-of-other", id, h, m1(meta), r1(vec![x]));
+        }
+        // single-element tamperings of the own blob
+        let mut cases: Vec<(String, raw::SubmittedRollupData)> = vec![];
+        for i in 0..own.transactions.len() {
+            let mut x = own.clone();
+            x.transactions[i] = flip(&x.transactions[i], rng.below(64) as usize);
+            cases.push((format!("blob-tx-alter:{i}"), x));
+        }
+        if own.transactions.len() >= 2 {
+            let mut x = own.clone();
+            let l = x.transactions.len();
+            x.transactions.swap(0, l - 1);
+            cases.push(("blob-tx-reorder".to_string(), x));
+        }
+        if !own.transactions.is_empty() {
+            let mut x = own.clone();
+            x.transactions.pop();
+            cases.push(("blob-tx-truncate".to_string(), x));
+            let mut x = own.clone();
+            let last = x.transactions.last().unwrap().clone();
+            x.transactions.push(last);
+            cases.push(("blob-tx-extend-dup".to_string(), x));
+        }
+        let mut x = own.clone();
+        x.transactions.push(Bytes::from(vec![0x0a, 0x01, 0x42]));
+        cases.push(("blob-tx-extend-new".to_string(), x));
+        for (how, name) in PROOF_MUTS {
+            let mut x = own.clone();
+            x.proof = mut_proof(&own.proof, *how);
+            cases.push((format!("blob-proof-{name}"), x));
+        }
+        let mut x = own.clone();
+        x.sequencer_block_hash = Bytes::from(vec![0x99; 32]);
+        cases.push(("blob-block-hash-swapped".to_string(), x));
+        let mut x = own.clone();
+        x.rollup_id = Some(fresh_id());
+        cases.push(("blob-id-fresh".to_string(), x));
+        for (j, (name, x)) in cases.iter().enumerate() {
+            if !common::is_thorough() && n % 2 == 1 && j % 2 == 0 {
+                continue;
+            }
+            emit(name, id, h, m1(meta), r1(vec![x.clone()]));
+        }
+        // tampered blob first, honest blob second: the honest one must still be attached
+        if let Some((_, bad)) = cases.first() {
+            emit("tampered-then-honest", id, h, m1(meta), r1(vec![bad.clone(), own.clone()]));
+        }
+        // metadata tamperings
+        let mut x = meta.clone();
+        x.block_hash = Bytes::from(vec![0x99; 32]);
+        emit("meta-block-hash-swapped", id, h, m1(&x), r1(vec![own.clone()]));
+        let mut x = meta.clone();
+        x.header.as_mut().unwrap().chain_id = "other-chain".to_string();
+        emit("meta-chain-id-other", id, h, m1(&x), r1(vec![own.clone()]));
+        let mut x = meta.clone();
+        x.header.as_mut().unwrap().height = h + 1; // the sequencer has another block there
+        emit("meta-height-of-other-block", id, h, m1(&x), r1(vec![own.clone()]));
+        let mut x = meta.clone();
+        x.header.as_mut().unwrap().height = h + 2; // unknown to the sequencer
+        emit("meta-height-unknown", id, h, m1(&x), r1(vec![own.clone()]));
+        let mut x = meta.clone();
+        x.header.as_mut().unwrap().rollup_transactions_root = flip(&x.header.as_ref().unwrap().rollup_transactions_root, 1);
+        emit("meta-root-flip", id, h, m1(&x), r1(vec![own.clone()]));
+        let mut x = meta.clone();
+        x.rollup_ids.retain(|i| i.inner.as_ref() != id.as_slice());
+        emit("meta-ids-without-own", id, h, m1(&x), r1(vec![]));
+        // list handling of convert.rs
+        let mut bad = meta.clone();
+        bad.rollup_transactions_proof = None;
+        emit("meta-list-one-bad", id, h, vec![(false, Some(vec![meta.clone(), bad.clone()]))], r1(vec![own.clone()]));
+        emit("meta-bad-in-other-blob", id, h, vec![(false, Some(vec![bad.clone()])), (false, Some(vec![meta.clone()]))], r1(vec![own.clone()]));
+        emit("meta-wrong-namespace", id, h, vec![(true, Some(vec![meta.clone()]))], r1(vec![own.clone()]));
+        emit("meta-garbage-blob", id, h, vec![(false, None), (false, Some(vec![meta.clone()]))], r1(vec![own.clone()]));
+        emit("meta-empty-list", id, h, vec![(false, Some(vec![]))], r1(vec![own.clone()]));
+        let mut badb = own.clone();
+        badb.proof = None;
+        emit("blob-list-one-bad", id, h, m1(meta), vec![(false, Some(vec![own.clone(), badb.clone()]))]);
+        emit("blob-bad-in-other-blob", id, h, m1(meta), vec![(false, Some(vec![badb.clone()])), (false, Some(vec![own.clone()]))]);
+        emit("blob-wrong-namespace", id, h, m1(meta), vec![(true, Some(vec![own.clone()]))]);
+        emit("blob-garbage-blob", id, h, m1(meta), vec![(false, None), (false, Some(vec![own.clone()]))]);
+        emit("blob-twice", id, h, m1(meta), r1(vec![own.clone(), own.clone()]));
+    }
+}
+
 #[test]
 fn driver() {
-    let trace = common::Trace::from_env();
+    if std::env::var("VERIF_SHOW_PANICS").is_err() {
+        common::silence_panics();
+    }
+    let mut trace = Trace::from_env();
+    let mut rng = Rng::from_env();
+    let mut ex = Exec {
+        env: None,
+        session: Session {
+            block: None,
+        },
+    };
+    if let Some(ops) = common::replay_lines() {
+        for op in ops {
+            trace.line(&ex.exec(&op));
+        }
+    } else {
+        for op in common::corpus_lines() {
+            trace.line(&ex.exec(&op));
+        }
+        generate(&mut rng, &mut ex, &mut trace);
+    }
     trace.finish();
 }
